@@ -66,6 +66,10 @@ func c16alphabet() []c16op {
 		// a grouped metric whose name uses the {PREFIX} template (the storage has the prefix pfx_)
 		{id: "G11", json: `{"group":"g1","name":"{PREFIX}gp","action":"set","value":1,"labels":{"a":"1"}}`, group: "g1", name: "pfx_gp", action: "set", value: 1, labels: L("a", "1")},
 		{id: "G12", json: `{"group":"g1","name":"{PREFIX}gpc","add":2,"labels":{}}`, group: "g1", name: "pfx_gpc", action: "add", value: 2, labels: L()},
+		// two series whose label values differ only in where a non-ASCII letter stands (L'Haÿ / les-Roses):
+		// series are told apart by their label VALUES, whatever characters these hold
+		{id: "G13", json: `{"group":"g1","name":"gy","action":"set","value":1,"labels":{"a":"xÿ","b":"y"}}`, group: "g1", name: "gy", action: "set", value: 1, labels: L("a", "xÿ", "b", "y")},
+		{id: "G14", json: `{"group":"g1","name":"gy","action":"set","value":2,"labels":{"a":"x","b":"ÿy"}}`, group: "g1", name: "gy", action: "set", value: 2, labels: L("a", "x", "b", "ÿy")},
 		{id: "I1", json: `{"name":"um","value":1}`, invalid: true},
 		{id: "I2", json: `{"group":"g1","name":"gm","action":"observe","value":1,"buckets":[1]}`, invalid: true},
 		{id: "I3", json: `{"name":"un","action":"set"}`, invalid: true},
